@@ -322,8 +322,11 @@ class MinGenSet():
         start_time = time.perf_counter()
 
         # Solve for increasing numbers of elements in the generating set
-        # A generating set may need as many elements as there are numbers, plus one to reach `total`
-        for k in range(self.lowerbound, max(self.lowerbound+1, len(self.initial_numbers) + 2)):
+        # A generating set may need as many elements as there are numbers, plus one to reach `total`;
+        # every partition constraint with t parts may require t-1 further elements
+        # (cutting [0, total] at every number and at every prefix sum of every partition always gives a generating set)
+        max_k = len(self.initial_numbers) + 1 + sum(len(c) - 1 for c in (self.partition_constraints or []) if len(c) > 0)
+        for k in range(self.lowerbound, max(self.lowerbound+1, max_k + 1)):
             self._create_solver(k=k)
             self.solver.optimize()
 
